@@ -17,6 +17,7 @@
      O <entries> <last>        content/oci listTags
      X <limit> <found> <size> <items> <at> <cbfail>   referrers tag schema
      P <U|S|N> <status> <nameunknown> <ctype>   pingReferrers: answer (1|0|E), state, requests
+     CA <the fields of a C line>    registry.Tags / registry.Repositories / registry.Referrers / Predecessors
      CS <scheme> <host> <the fields of a C line>   the whole page loop on strings (raw requests)
      U <T|K|R> <n> <scheme> <host> <base path> <base raw query> <Link header>   the next request on strings
      U0 <T|K|R> <n> <at> <last>     raw query of the first request
@@ -148,6 +149,10 @@ let () =
       Printf.printf "%s R %s P %d %s O %s\n" id
         (String.concat "|" (List.map tok_of_url tr.t_reqs))
         (List.length tr.t_pages) (tok_of_pages tr.t_pages) (out_name tr.t_out)
+    | id :: "CA" :: rest ->
+      let (cfg, tr) = run_client rest in
+      let (o, items) = collect_all tr in
+      Printf.printf "%s I %s O %s\n" id (tok_of_items items) (out_name o)
     | id :: "CS" :: rest ->
       (match run_client_s rest with
        | None -> Printf.printf "%s UNJUDGED\n" id
